@@ -25,9 +25,19 @@ Sub-spaces
               1:2, -3:2 and 2: S^e <-> R^e (R another spelling of the same dimension), through the intermediate R^e,
               and refusal of S^e <-> R^e' for the neighbouring exponents e' (dimension = table dimension x exponent)
 
+  nounit      the target "no unit" given as an empty BaseUnits() object (value(None) / value('') mean "no conversion" in
+              the API and are left out): every dimensionless spelling (%, ppth, [pi] ...) converts to it with its
+              factor (value(BaseUnits()), to(BaseUnits()), to(Quantity(1))); every refusal representative of non-zero
+              dimension must be refused by the same three forms
+  dtype       how the magnitude is handed in: float64/float32/float16/int64/int32 arrays, a list, numpy scalars of
+              those types, incl. magnitudes at the edge of the narrow types (2.5e30, 1e-30 in float32; 6e4, 6e-5 in
+              float16): all ordered pairs inside 4 small groups (ym, mm, m, Tm, Ym | J, eV, MeV | g, [M_sol] | %, ppth)
+              and s <-> kHz; the result must be the double-precision x*f(u)/f(v) of the value the input holds
+  table       schema validation of the tables (see units_ref.SCHEMA); malformed rows are reported, not adopted
+
 Not demanded (left out): logarithmic and offset units (C05); numeric factors inside a target expression; x = 0 under
 a reciprocal conversion; a bare number to angle units other than the table symbol 'rad' (deg, mrad, #SPAN: the
-statement names radians only); a target without any unit; results whose exact value or intermediate leaves
+statement names radians only); the targets None and '' (API: no conversion); results whose exact value or intermediate leaves
 1e-300..1e300 are only required to have the right sign.
 """
 import math
@@ -253,6 +263,13 @@ def check_convert(case):
             f = cmp(o[1], "to-" + form)
             if f:
                 return f
+        o = outcome(lambda: Quantity(_scalar_or_array(x), u["text"]).value(BaseUnits(v["text"])))
+        if o[0] == "err":
+            return failure(case["sub"], case, [e[0] for e in exp], dict(error=o[1], message=o[2]), tags=tags,
+                           behaviour="value-baseunits:raises:" + o[1])
+        f = cmp(o[1], "value-baseunits")
+        if f:
+            return f
     # and back
     if any(e[1] for e in exp) or (rec and any(xi == 0 for xi in xs)):
         return None
@@ -329,13 +346,19 @@ def check_refuse(case):
         return failure("refuse", case, "readable quantity", dict(error=before[1], message=before[2]), tags=tags,
                        behaviour="unreadable-before")
     from scinumtools.units import BaseUnits
-    targets = dict(value=lambda: q.value(v["text"]), to=lambda: q.to(v["text"]),
-                   to_quantity1=lambda: q.to(Quantity(1, v["text"])), to_quantity4=lambda: q.to(Quantity(4, v["text"])),
-                   to_baseunits=lambda: q.to(BaseUnits(v["text"])))
-    for how in ("value", "to", "to_quantity1", "to_quantity4", "to_baseunits"):
+    if v["text"] is None:        # the target "no unit" as an object
+        targets = dict(value_baseunits=lambda: q.value(BaseUnits()), to_baseunits=lambda: q.to(BaseUnits()),
+                       to_quantity1=lambda: q.to(Quantity(1)))
+    else:
+        targets = dict(value=lambda: q.value(v["text"]), to=lambda: q.to(v["text"]),
+                       to_quantity1=lambda: q.to(Quantity(1, v["text"])),
+                       to_quantity4=lambda: q.to(Quantity(4, v["text"])),
+                       to_baseunits=lambda: q.to(BaseUnits(v["text"])),
+                       value_baseunits=lambda: q.value(BaseUnits(v["text"])))
+    for how in targets:
         o = outcome(targets[how])
         if o[0] == "ok":
-            got = o[1] if how == "value" else o[1].value()
+            got = o[1] if how.startswith("value") else o[1].value()
             return failure("refuse", case, "refused with an error",
                            dict(converted=[float(a) for a in got] if isinstance(got, np.ndarray) and got.shape
                                 else _num(got)), tags=tags, behaviour=how + ":converted")
@@ -355,6 +378,95 @@ def check_refuse(case):
             return failure("refuse", case, dict(value=before[1][0], units=before[1][1]),
                            dict(value=after[1][0], units=after[1][1]), tags=tags,
                            behaviour=how + ":value-changed-by-refused-conversion")
+    return None
+
+
+def check_nounit(case):
+    """dimensionless source -> the target 'no unit' given as an object: x*f(u) by value(BaseUnits()), to(BaseUnits()),
+    to(Quantity(1))"""
+    Quantity = _lib()
+    from scinumtools.units import BaseUnits
+    u, x = case["u"], case["x"]
+    xs = x if isinstance(x, list) else [x]
+    exp = [_expected(xi, u, NOUNIT) for xi in xs]
+    tags = ["no-unit-target", "dimensionless-source", "array" if isinstance(x, list) else "scalar"] + _utags(u)
+    forms = dict(value_baseunits=lambda: Quantity(_scalar_or_array(x), u["text"]).value(BaseUnits()),
+                 to_baseunits=lambda: Quantity(_scalar_or_array(x), u["text"]).to(BaseUnits()),
+                 to_quantity1=lambda: Quantity(_scalar_or_array(x), u["text"]).to(Quantity(1)))
+    for how, fn in forms.items():
+        o = outcome(fn)
+        if o[0] == "err":
+            return failure("nounit", case, [e[0] for e in exp], dict(error=o[1], message=o[2]), tags=tags,
+                           behaviour=how + ":raises:" + o[1])
+        got, units = o[1], None
+        if not how.startswith("value"):
+            o2 = outcome(lambda: (o[1].value(), o[1].units()))
+            if o2[0] == "err":
+                return failure("nounit", case, [e[0] for e in exp], dict(error=o2[1], message=o2[2]), tags=tags,
+                               behaviour=how + ":unreadable:" + o2[1])
+            got, units = o2[1]
+        vals = [float(g) for g in got] if isinstance(got, np.ndarray) and got.shape else [got]
+        if len(vals) != len(xs) or not all(_agree(g, e, ext) for g, (e, ext) in zip(vals, exp)):
+            return failure("nounit", case, [e[0] for e in exp], [_num(g) for g in vals], tags=tags,
+                           behaviour=how + ":wrong-value")
+        if units is not None:
+            return failure("nounit", case, "no unit", units, tags=tags, behaviour=how + ":units-not-target")
+    return None
+
+
+def _dtype_input(form, xs):
+    kind, _, dt = form.partition(":")
+    if kind == "list":
+        return [list(xs)], [[float(x) for x in xs]]
+    arr = np.array(xs, dtype=dt)
+    held = [float(a) for a in arr]
+    if kind == "array":
+        return [arr], [held]
+    return [np.dtype(dt).type(a) for a in arr], [[h] for h in held]      # numpy scalars, one conversion each
+
+
+def check_dtype(case):
+    """the magnitude handed in as list / numpy array / numpy scalar of a given dtype: value(v), to(v) and back must be
+    the double-precision conversion of the values the container holds"""
+    Quantity = _lib()
+    u, v, form, rec = case["u"], case["v"], case["form"], case.get("reciprocal", False)
+    tags = ["input:" + form] + (["reciprocal-dimension"] if rec else ["same-dimension"]) + _utags(u, v)
+    inputs, helds = _dtype_input(form, case["xs"])
+    for inp, held in zip(inputs, helds):
+        exp = [_expected(h, u, v, rec) for h in held]
+
+        def bad(obs):
+            vals = [float(g) for g in obs] if isinstance(obs, np.ndarray) and obs.shape else [obs]
+            if len(vals) != len(exp) or not all(_agree(g, e, ext) for g, (e, ext) in zip(vals, exp)):
+                return [_num(g) for g in vals]
+            return None
+        keep = inp.copy() if isinstance(inp, np.ndarray) else inp
+        o = outcome(lambda: Quantity(inp, u["text"]).value(v["text"]))
+        if o[0] == "err":
+            return failure("dtype", case, [e[0] for e in exp], dict(error=o[1], message=o[2]), tags=tags,
+                           behaviour="value:raises:" + o[1])
+        b = bad(o[1])
+        if b is not None:
+            return failure("dtype", case, [e[0] for e in exp], b, tags=tags, behaviour="value:wrong-value")
+        o = outcome(lambda: Quantity(inp, u["text"]).to(v["text"]))
+        if o[0] == "err":
+            return failure("dtype", case, [e[0] for e in exp], dict(error=o[1], message=o[2]), tags=tags,
+                           behaviour="to:raises:" + o[1])
+        q = o[1]
+        o = outcome(lambda: q.value())
+        b = ["unreadable"] if o[0] == "err" else bad(o[1])
+        if b is not None:
+            return failure("dtype", case, [e[0] for e in exp], b, tags=tags, behaviour="to:wrong-value")
+        if not any(ext for _, ext in exp) and not (rec and 0.0 in held):
+            o = outcome(lambda: q.to(u["text"]).value())
+            vals = None if o[0] == "err" else ([float(g) for g in o[1]] if isinstance(o[1], np.ndarray) and o[1].shape
+                                               else [o[1]])
+            if vals is None or len(vals) != len(held) or not all(_agree(g, h, False) for g, h in zip(vals, held)):
+                return failure("dtype", case, held, "error" if vals is None else [_num(g) for g in vals], tags=tags,
+                               behaviour="back:wrong-value")
+        if isinstance(inp, np.ndarray) and not (inp.dtype == keep.dtype and np.array_equal(inp, keep)):
+            return failure("dtype", case, [float(k) for k in keep], [float(k) for k in inp], tags=tags,
+                           behaviour="input-array-changed")
     return None
 
 
@@ -479,6 +591,21 @@ def _reciprocal_pairs():
     return out
 
 
+NOUNIT = dict(text=None, terms=[])       # the target "no unit", handed over as an empty BaseUnits() object
+DTYPE_GROUPS = [["ym", "mm", "m", "Tm", "Ym"], ["J", "eV", "MeV"], ["g", "[M_sol]"], ["%", "ppth"]]
+DTYPE_RECIPROCAL = [("s", "kHz"), ("kHz", "s")]
+DTYPE_FORMS = {   # how the magnitude is handed in -> value sets (exactly the values the container holds are expected)
+    "array:float64": [[2.5, -0.75, 0.0], [2.5e30, 1e-30, 1e200]],
+    "array:float32": [[2.5, -0.75, 0.0], [2.5e30, 1e-30]],
+    "array:float16": [[2.5, -0.75, 0.0], [6e4, 6e-5]],
+    "array:int64": [[3, -2, 0], [10 ** 15]],
+    "array:int32": [[3, -2, 0], [2 ** 31 - 1]],
+    "list": [[2.5, -0.75, 0.0], [2.5e30, 1e-30, 1e200]],
+    "scalar:float64": [[2.5, 2.5e30]],
+    "scalar:float32": [[2.5, 2.5e30, 1e-30]],
+    "scalar:float16": [[2.5, 6e4, 6e-5]],
+    "scalar:int64": [[3, -2]],
+}
 POWERS = [F(1, 2), F(-3, 2), F(2)]
 POWER_NEIGHBOURS = {F(1, 2): [F(1)], F(-3, 2): [F(-1), F(-2)], F(2): [F(1), F(3)]}     # never -e (reciprocal)
 
@@ -545,13 +672,29 @@ def _refusal_pairs():
             if u is None and dv[7] != 0:
                 tags.append("target-contains-rad")
             out.append((u, v, tags))
+    for u, du in reps:
+        if u is not None and any(x != 0 for x in du):
+            out.append((u, NOUNIT, ["no-unit-target"]))
     return out
 
 
 # ----------------------------------------------------------------------------------------------- engine
+def _table_failure(case, exp, obs):
+    return failure("table", case, exp, obs, tags=["table:" + case["table"], "column:" + case["column"]],
+                   behaviour="malformed-row")
+
+
+def _fixed_alphabet_missing():
+    need = [a for a, _ in _LEAVES] + [g[0] for g in GBU] + [t for g in GBU for t, _ in g[1]] \
+        + [t for _, terms in _RAD_ONLY for t, _ in terms] + [a for p in DTYPE_GROUPS for a in p]
+    return sorted(set(n for n in need if n not in _REF.spellings))
+
+
 def plan(tier, seed):
     init_worker()
-    shards = []
+    if _fixed_alphabet_missing():
+        return [("table",)]
+    shards = [("table",)]
     for gi, (d, names) in enumerate(_GROUPS):
         for ui in range(len(names)):
             if len(names) >= 20:
@@ -578,7 +721,10 @@ def plan(tier, seed):
     shards.append(("number-to-rad",))
     for k in range(8):
         shards.append(("power", k, 8))
-    order = {"refuse": 0, "number-to-rad": 0, "gbu": 0, "power": 0, "reciprocal": 1, "pair": 2, "compound": 3,
+    shards.append(("nounit",))
+    for gi in range(len(DTYPE_GROUPS) + 1):
+        shards.append(("dtype", gi))
+    order = {"table": 0, "dtype": 0, "nounit": 0, "refuse": 0, "number-to-rad": 0, "gbu": 0, "power": 0, "reciprocal": 1, "pair": 2, "compound": 3,
              "triple": 4}
     shards.sort(key=lambda s: order[s[0]])
     return shards
@@ -614,7 +760,17 @@ def _conv_cases(sh, sub, u, v, xs, arr, reciprocal=False, tags=(), nontrivial=Tr
 def run_shard(desc):
     sh = Shard(PROPERTY)
     kind = desc[0]
-    if kind == "pair":
+    if kind == "table":
+        # a malformed table row is never adopted as specification (units_ref leaves it out): report it
+        sh.evaluations += _REF.rows_validated
+        sh.count("table:rows-validated", _REF.rows_validated)
+        for case, exp, obs in _REF.schema_cases():
+            sh.nontrivial += 1
+            sh.fail(_table_failure(case, exp, obs))
+        if _fixed_alphabet_missing():
+            sh.count("table:fixed-alphabet-unavailable")
+            sh.add_extra("fixed_alphabet_missing", _fixed_alphabet_missing())
+    elif kind == "pair":
         _, gi, lo, hi = desc
         names = _GROUPS[gi][1]
         for a in names[lo:hi]:
@@ -680,6 +836,39 @@ def run_shard(desc):
                             sh.fail(bad)
             if n == 2 and desc[1] == 0:
                 sh.sample(dict(sub="power", u=u["text"], v=v["text"], xs=XS), limit=1)
+    elif kind == "nounit":
+        zero = tuple([F(0)] * 8)
+        for name in dict(_GROUPS).get(zero, []):
+            bad = None
+            for x in XS + [ARRAY]:
+                r = check_nounit(dict(sub="nounit", u=U(name), x=x))
+                sh.evaluations += 1
+                if r is not None and bad is None:
+                    bad = r
+            sh.nontrivial += 1
+            sh.count("nounit:converted")
+            if bad is not None:
+                sh.fail(bad)
+        sh.sample(dict(sub="nounit", u="%", v="BaseUnits()", xs=XS), limit=1)
+    elif kind == "dtype":
+        gi = desc[1]
+        if gi < len(DTYPE_GROUPS):
+            pairs = [(a, b, False) for a in DTYPE_GROUPS[gi] for b in DTYPE_GROUPS[gi]]
+        else:
+            pairs = [(a, b, True) for a, b in DTYPE_RECIPROCAL]
+        for a, b, rec in pairs:
+            for form, sets in DTYPE_FORMS.items():
+                for xs in sets:
+                    if rec:
+                        xs = [x for x in xs if x != 0]
+                    r = check_dtype(dict(sub="dtype", u=U(a), v=U(b), form=form, xs=xs, reciprocal=rec))
+                    sh.evaluations += 1
+                    sh.nontrivial += 1
+                    sh.count("dtype:" + form.split(":")[-1])
+                    if r is not None:
+                        sh.fail(r)
+        if gi == 0:
+            sh.sample(dict(sub="dtype", u="Tm", v="mm", form="array:float32", xs=DTYPE_FORMS["array:float32"][1]), limit=1)
     elif kind == "number-to-rad":
         for x in XS + [ARRAY]:
             r = check_number_to_rad(dict(sub="number-to-rad", x=x))
@@ -699,11 +888,11 @@ def run_shard(desc):
                     bad = r
             sh.nontrivial += 1
             sh.count("refuse" + (":differs-only-in-rad" if "differs-only-in-rad" in tags else "")
-                     + (":bare-number" if u is None else ""))
+                     + (":bare-number" if u is None else "") + (":no-unit-target" if v["text"] is None else ""))
             if bad is not None:
                 sh.fail(bad)
             if n == 3 and desc[1] in (0, 7):
-                sh.sample(dict(sub="refuse", u=None if u is None else u["text"], v=v["text"]), limit=1)
+                sh.sample(dict(sub="refuse", u=None if u is None else u["text"], v=v["text"] or "BaseUnits()"), limit=1)
     elif kind == "triple":
         _, gi, lo, hi, wins = desc
         names = _GROUPS[gi][1]
@@ -738,10 +927,17 @@ def replay(rec):
     isolation.tables_restore()
     c = rec["case"]
     sub = c["sub"]
-    if sub in ("pair", "compound", "reciprocal", "power"):
+    if sub == "table":
+        got = units_ref.UnitsRef.replay_schema_case(c)
+        r = None if got is None else _table_failure(c, got[0], got[1])
+    elif sub in ("pair", "compound", "reciprocal", "power"):
         r = check_convert(c)
     elif sub == "number-to-rad":
         r = check_number_to_rad(c)
+    elif sub == "nounit":
+        r = check_nounit(c)
+    elif sub == "dtype":
+        r = check_dtype(c)
     elif sub == "refuse":
         r = check_refuse(c)
     elif sub == "triple":
@@ -754,9 +950,15 @@ def replay(rec):
 
 def finish(total, tier, seed):
     h = total.hist
+    if h.get("table:fixed-alphabet-unavailable"):
+        return dict(caps_hit=["only the table schema was checked: fixed alphabet unavailable"], exhaustive=False)
+    if h.get("table:rows-validated", 0) < 200:
+        raise HarnessError("table schema not validated: %r" % (h,))
     need = {"pair:converted": 10000, "pair:identity": 500, "triple": 10000, "compound:converted": 5000,
             "reciprocal:converted": 1000, "refuse": 1000, "refuse:differs-only-in-rad": 4, "refuse:bare-number": 20,
-            "number-to-rad": 8, "power:converted": 500, "refuse:unit-power": 500}
+            "number-to-rad": 8, "power:converted": 500, "refuse:unit-power": 500,
+            "refuse:no-unit-target": 50, "nounit:converted": 4, "dtype:float32": 50, "dtype:float16": 50,
+            "dtype:int64": 50, "dtype:list": 40}
     for k, n in need.items():
         if h.get(k, 0) < n:
             raise HarnessError("vacuous sub-space %s: %r" % (k, h))
@@ -770,7 +972,8 @@ def finish(total, tier, seed):
         compound_expressions=sum(len(o) for _, o in _compound_groups()), compound_groups=len(_compound_groups()),
         reciprocal_pairs=len(_reciprocal_pairs()), refusal_representatives=len(_refusal_reps()),
         refusal_pairs=len(_refusal_pairs()), power_cases=len(_power_cases()),
-        powers=[units_ref.exp_text(e) for e in POWERS],
+        powers=[units_ref.exp_text(e) for e in POWERS], input_forms=sorted(DTYPE_FORMS),
+        dtype_groups=DTYPE_GROUPS + [list(p) for p in DTYPE_RECIPROCAL], table_rows_validated=_REF.rows_validated,
         magnitudes=XS, array=ARRAY, triple_magnitudes=TRIPLE_XS, relative_tolerance=RTOL, caps_hit=[],
     )
 
@@ -784,7 +987,10 @@ MANIFEST = dict(
          "system-of-quantities units to the powers 1:2, -3:2, 2 (convert, via intermediate, refuse neighbouring "
          "exponents); all pairs of exactly reciprocal dimension; bare "
          "number -> rad; 15 467 ordered pairs of 126 representatives of different dimension (incl. pairs that differ only "
-         "in the rad exponent) must be refused by value() and to() and leave value and units untouched. Oracle: "
+         "in the rad exponent) must be refused by value() and to() (string, BaseUnits and Quantity targets, incl. the empty "
+         "BaseUnits() target) and leave value and units untouched; dimensionless spellings -> empty BaseUnits() target; "
+         "44 pairs x 10 input forms (float64/32/16, int64/32 arrays, list, numpy scalars) x edge magnitudes; table "
+         "schema validated. Oracle: "
          "x*f(u)/f(v) in exact rational arithmetic over the published tables, rel 1e-12.",
     note="Float magnitudes are covered by 7 boundary representatives only; compound expressions have <= 3 terms over "
          "17 leaves; refusal uses <= 2 representatives per dimension group. Logarithmic and offset units belong to C05. "
